@@ -226,7 +226,15 @@ def gather():
     for q in sorted(all_cls):
         k = all_cls[q]
         mro = [class_id(x.__module__ + '.' + x.__qualname__) for x in k.__mro__ if x is not object]
-        table_classes.append({'id': class_id(q), 'name': q, 'mro': mro, 'dict': dict_entries(vars(k)), 'obj': k, 'is_module': False,
+        # a STATIC alias declared inside a class takes no receiver: the replacement its warning names is looked up
+        # in the namespace of the module defining the class when the class itself does not have it
+        ns = dict(vars(k))
+        k_mod = sys.modules.get(k.__module__)
+        for d in defs:
+            if d['kind'] == 'class' and d['static'] and d['owner_obj'] is k and d['newname'] and d['newname'] not in ns and k_mod is not None \
+                    and d['newname'] in vars(k_mod):
+                ns[d['newname']] = vars(k_mod)[d['newname']]
+        table_classes.append({'id': class_id(q), 'name': q, 'mro': mro, 'dict': dict_entries(ns), 'obj': k, 'is_module': False,
                               'abstract': inspect.isabstract(k)})
     for q in mod_owner:
         cid = class_id('module:' + q)
